@@ -37,9 +37,11 @@ func (s *Store) maxSizeEnforcer(maxSize int64) {
 				el := all.Front()
 				all.Remove(el)
 				m := el.Value.(*Message)
-				if s.removeMessage(m.mailbox, m.id) != nil {
-					curSize -= int64(m.Size())
-				}
+				// No longer accounted for; if another client already took it out of its mailbox,
+				// its pending removal notice must not be counted a second time.
+				m.el = nil
+				s.removeMessage(m.mailbox, m.id)
+				curSize -= int64(m.Size())
 			}
 			close(md.done)
 		case md, ok := <-s.remove:
